@@ -10,7 +10,7 @@ RULE = (
     "histories of operations on ONE cutplace.Cid object; operations (each over three small data sets that share key and "
     "value cells): read completely (yield mode + close; raise mode through cutplace.rows), read and abandon after k = 0, 1, "
     "2 items (generator and reader closed, or everything just dropped), read without closing, two complete runs of one Reader, a Reader created before the history begins and read at its turn, reader closed without "
-    "iterating, validate with limit 0, validate, write rows without close, write and close, CutplaceApp.validate (the command line's per-file step) - 57 operations - on CIDs with "
+    "iterating, validate with limit 0, validate, write rows without close, write and close, CutplaceApp.validate (the command line's per-file step) - 60 operations - on CIDs with "
     "IsUnique, DistinctCount, or both (delimited) and a fixed CID without a declared line delimiter whose data sets end their lines with CR LF. Oracle: history + model where the model is the implementation with fresh state: the "
     "outcome of the last operation of every history (items, rejections with row numbers, end-of-data result, written text, "
     "counters) must equal the outcome of the same operation on a freshly loaded CID. Quick: all histories of length <= 2 "
@@ -57,6 +57,7 @@ def operations():
         ops.append(("app-validate", d))
         # an abandoned iteration whose generator stays referenced, and a read during which all such generators are dropped
         ops.append(("abandon-kept", d, 1))
+        ops.append(("abandon-kept-rows", d, 1))
         ops.append(("read-dropping-kept", d))
         # one Reader used for two complete runs (read, close, rewind the stream, read, close)
         ops.append(("read-twice-one-reader", d))
@@ -155,6 +156,19 @@ def perform(cid, op, early=None):
                 items.append(err(item) if isinstance(item, Exception) else item)
             out["items"] = items
             KEPT.append((generator, reader))
+        elif kind == "abandon-kept-rows":
+            # the same through cutplace.rows(): finalising this generator later closes its reader (which asks the checks
+            # for their end verdict and cleans them up) - whenever that happens
+            generator = cutplace.rows(cid, source_for(d, text), on_error="yield")
+            items = []
+            for _ in range(op[2]):
+                try:
+                    item = next(generator)
+                except StopIteration:
+                    break
+                items.append(err(item) if isinstance(item, Exception) else item)
+            out["items"] = items
+            KEPT.append((generator, None))
         elif kind == "read-dropping-kept":
             reader = validio.Reader(cid, source_for(d, text), on_error="yield")
             items = []
@@ -247,7 +261,7 @@ def fresh_outcome(cid_kind, op):
         saved = list(KEPT)
         del KEPT[:]
         _fresh_cache[key] = perform(new_cid(cid_kind), op)
-        if op[0] == "abandon-kept":
+        if op[0] in ("abandon-kept", "abandon-kept-rows"):
             KEPT.pop()  # the fresh reference run must not leave anything behind
         KEPT.extend(saved)
     return _fresh_cache[key]
@@ -398,7 +412,7 @@ def family(kind):
         return "write"
     if kind in ("close-without-rows", "validate-limit0"):
         return "close-without-iteration"
-    if kind in ("abandon-closed", "abandon-kept"):
+    if kind in ("abandon-closed", "abandon-kept", "abandon-kept-rows"):
         return "abandoned-read"
     if kind == "nothing":
         return "nothing"
@@ -419,7 +433,7 @@ def run(ctx):
                 if ctx.mine(index):
                     check_history(ctx, cid_kind, history)
     ctx.exhaustive = True
-    ctx.note("exhaustive part: all histories of length <= %d over 57 operations x 4 CIDs; longer histories are sampled" % max_len)
+    ctx.note("exhaustive part: all histories of length <= %d over 60 operations x 4 CIDs; longer histories are sampled" % max_len)
     n = ctx.pick(2500, 20000)
     lo, hi = ctx.pick((3, 4), (5, 8))
     for i in range(n):
